@@ -689,6 +689,33 @@ async fn deadline_case(addr: SocketAddr, conf: &Conf, behaviour: &str, out: &Mut
             }
             return;
         }
+        "exchange-complete-then-trickle" => {
+            // the client completes a status exchange - the connection has served its purpose - and then, instead of
+            // hanging up, keeps a trickle of bytes coming: the connection is gone by the deadline all the same
+            c.phase = common::refs::codec::Phase::Status;
+            let _ = c.send(&codec::sb_handshake(769, "t.example", 25565, 1)).await;
+            let _ = c.send(&codec::sb_status_request()).await;
+            let _ = c.read_packet(Duration::from_millis(700)).await;
+            let _ = c.send(&codec::sb_ping(7)).await;
+            let _ = c.read_packet(Duration::from_millis(700)).await;
+            let limit = (timeout + ALLOWANCE).saturating_sub(t0.elapsed());
+            let trickle = async {
+                loop {
+                    if c.stream.write_all(&[0x01, 0x00]).await.is_err() {
+                        break;
+                    }
+                    tokio::time::sleep(Duration::from_millis(20)).await;
+                }
+            };
+            if tokio::time::timeout(limit, trickle).await.is_err() {
+                out.lock().unwrap().push((
+                    format!("deadline-not-enforced:{behaviour}"),
+                    format!("timeout = {} s: a client that completed its status exchange and then kept sending bytes every 20 ms could still write {:?} after it connected", conf.timeout, t0.elapsed()),
+                    json!({"conf": conf, "case": "deadline", "behaviour": behaviour}),
+                ));
+            }
+            return;
+        }
         "protocol-error-then-trickle" => {
             // the client breaks the protocol (a frame of length zero after its handshake) and then keeps a trickle
             // of bytes coming, one every 20 ms: whatever the server does once a connection has failed - a notice, a
@@ -817,7 +844,7 @@ async fn futures_join_all<F: std::future::Future<Output = ()>>(futs: Vec<F>) {
 pub fn run(cli: Cli) -> ! {
     let rep = Report::new("C14", cli.tier, "exploration");
     let thorough = cli.tier.thorough();
-    let all_behaviours = ["silent", "one-byte-every-100ms", "stop-mid-frame", "stop-after-handshake", "stop-after-login-start", "stop-after-encryption-request", "stop-after-login-success", "login-ack-only", "floods-ignorable-frames", "protocol-error-then-trickle"];
+    let all_behaviours = ["silent", "one-byte-every-100ms", "stop-mid-frame", "stop-after-handshake", "stop-after-login-start", "stop-after-encryption-request", "stop-after-login-success", "login-ack-only", "floods-ignorable-frames", "protocol-error-then-trickle", "exchange-complete-then-trickle"];
     let confs: Vec<Conf> = if let Some(case) = &cli.replay {
         vec![serde_json::from_value(case["conf"].clone()).unwrap_or_else(|e| common::machinery(&format!("bad replay: {e}")))]
     } else if thorough {
